@@ -195,7 +195,8 @@ PROPS["C05"] = dict(
 def _c06_floors(m, tier):
     fams = ["valid_pure", "valid_prehashed", "pure_sig_to_prehashed_verify", "prehashed_sig_to_pure_verify", "S_plus_kL",
             "sig_bit_flip", "pk_bit_flip", "msg_bit_flip", "msg_bit_flip_prehashed", "sig_bit_flip_prehashed",
-            "small_order_public_key(equation-valid forgery)", "small_order_R(S=k*a)", "small_order_R_prehashed"]
+            "small_order_public_key(equation-valid forgery)", "small_order_R(S=k*a)", "small_order_R_prehashed",
+            "mixed_order_public_key(k*T=identity)", "mixed_order_public_key(k*T!=identity)"]
     out = need(m, "negative_family", fams, "verification families")
     if len(m.cov.get("small_order_A", {})) < 14 or len(m.cov.get("small_order_R", {})) < 14:
         out.append("not all 14 small-order / non-canonical encodings used as A and as R")
@@ -229,6 +230,8 @@ NI_ONLY = {"nightly_forms_only": "1"}
 def _c01_floors(m, tier):
     out = need(m, "len_mod16", range(16), "message length residues mod 16")
     out += need(m, "len_mod64", range(64), "message length residues mod 64")
+    if len(m.cov.get("poly1305_edge_messages", {})) < 10:
+        out.append("crafted Poly1305-edge messages: only %d of 10 (family, residue) cells built" % len(m.cov.get("poly1305_edge_messages", {})))
     ne, no = len(m.cov.get("enc_form", {})), len(m.cov.get("open_form", {}))
     if ne < 26:
         out.append("only %d of 26 encryption forms (20 stable + 6 heap/locked) driven" % ne)
